@@ -134,7 +134,7 @@ JudgeLive(r, o, exact) ==
   \cup Bad((o.empty = 1) = (n = 0) /\ (o.bie = 1) = (n = 0), "EMPTY")
   \cup Bad(o.cap = r.cap, "CAP")
   \cup Bad(o.fx = r.fx, "FIXED_SIZE")
-  \cup Bad(o.al = r.al, "GET_ALLOCATOR")
+  \cup Bad(r.al = 0 \/ o.al = r.al, "GET_ALLOCATOR")
   \cup Bad(\A q \in 1..Len(o.pn) : o.pn[q] = o.pn[1], "PATHS_DISAGREE")
   \cup Bad(shape, "SHAPE")
   \cup (IF shape THEN Bad(ValuesOK(r, E), "VALUES") ELSE {})
@@ -162,7 +162,8 @@ JudgeLive(r, o, exact) ==
                        "FULL_FOOTPRINT")
         ELSE {})
 
-JudgeMoved(r, o) == Bad(o.st = "moved", "STATE") \cup Bad(o.al = r.al, "GET_ALLOCATOR")
+\* r.al = 0: allocator unknown (valid-but-unspecified operand of a failed assignment)
+JudgeMoved(r, o) == Bad(o.st = "moved", "STATE") \cup Bad(r.al = 0 \/ o.al = r.al, "GET_ALLOCATOR")
 
 ObsOf(e, v) == LET s == {q \in 1..Len(e.obs) : e.obs[q].v = v} IN
                IF s = {} THEN NoObs ELSE e.obs[CHOOSE q \in s : TRUE]
@@ -206,7 +207,7 @@ JudgeElLive(r, o) ==
 JudgeEl(r, o) ==
   IF r.st = "absent" THEN Bad(o = NoObs, "OBS_OF_ABSENT")
   ELSE IF o = NoObs THEN {"OBS_MISSING"}
-  ELSE IF r.st = "moved" THEN Bad(o.st = "moved", "STATE") \cup Bad(o.al = r.al, "GET_ALLOCATOR")
+  ELSE IF r.st \in {"moved", "unspec"} THEN Bad(o.st = "moved", "STATE") \cup Bad(r.al = 0 \/ o.al = r.al, "GET_ALLOCATOR")
   ELSE IF o.st # "live" THEN {"STATE"} ELSE JudgeElLive(r, o)
 
 (* which containers an operation may touch; everything else must be observed unchanged *)
@@ -373,7 +374,8 @@ Hold == UNCHANGED <<vec, el, heap, objs, ob, obe, ex, skip>>
 
 ExactAfter(e, R) ==
   [v \in Vecs |->
-     IF v = e.v THEN
+     IF e.thrown = 1 THEN ex[v]
+     ELSE IF v = e.v THEN
        CASE e.n = "Construct" -> TRUE
          [] e.n = "Reserve" -> IF e.a[1] > vec[v].cap THEN TRUE ELSE ex[v]
          [] e.n \in {"CopyConstruct", "MoveConstruct"} -> ex[e.a[1]]
@@ -388,14 +390,14 @@ StepOp(e) ==
   IF ~PreOf(S0, e.n, e.v, e.a)
   THEN Report(e, {"DRIVER_PRECONDITION"}) /\ skip' = TRUE /\ UNCHANGED <<vec, el, heap, objs, ob, obe, ex>>
   ELSE
-    LET par == e.par
+    LET par == [e.par EXCEPT !.thrown = e.thrown]
         R == EffOf(S0, e.n, e.v, e.a, par)
         lg == LedgerFold(heap, {}, e.sub, 1)
         lf == LifeFold(objs, {}, e.sub, 1)
         exa == ExactAfter(e, R)
         kinds ==
           Bad(ParOK(S0, e.n, e.v, e.a, par), "LOGGED_PARAMETER")
-          \cup Bad(e.thrown = 0, "UNEXPECTED_THROW")
+          \cup Bad(e.thrown = 0 \/ e.par.fault > 0, "UNEXPECTED_THROW")
           \cup Bad(e.canary = 0, "CANARY")
           \cup Bad(e.ret = RetIdx(e.n, e.a), "RETURNED_ITERATOR")
           \cup lg.bad \cup lf.bad
@@ -410,9 +412,9 @@ StepOp(e) ==
                               LET o == IF c[2] = "v" THEN ObsOf(e, c[1]) ELSE EObsOf(e, c[1]) IN
                               IF o # NoObs /\ o.st = "live" /\ o.blk > 0 THEN o.blk ELSE 0]
                 IN Bad(\A c1, c2 \in DOMAIN blks : (c1 # c2 /\ blks[c1] > 0) => blks[c1] # blks[c2], "SHARED_BLOCK"))
-          \cup (IF e.n \notin ElemOps /\ e.v \in Vecs /\ vec[e.v].st = "live"
+          \cup (IF e.thrown = 0 /\ e.n \notin ElemOps /\ e.v \in Vecs /\ vec[e.v].st = "live"
                 THEN JudgeStability(e, vec[e.v], ob[e.v], ObsOf(e, e.v)) ELSE {})
-          \cup (IF e.n \notin ElemOps THEN JudgeTransfer(e, ob) \cup JudgeFootprint(e, ob) ELSE {})
+          \cup (IF e.thrown = 0 /\ e.n \notin ElemOps THEN JudgeTransfer(e, ob) \cup JudgeFootprint(e, ob) ELSE {})
           \* containers that are not operands are completely unchanged (C09, C12 independence): same observation
           \cup UNION {Bad(ObsOf(e, v) = ob[v], "BYSTANDER_CHANGED") : v \in Vecs \ TouchedVecs(e)}
           \cup UNION {Bad(EObsOf(e, x) = obe[x], "BYSTANDER_CHANGED") : x \in Elems \ TouchedEls(e)}
@@ -427,7 +429,7 @@ StepOp(e) ==
                                   IF o # NoObs /\ o.st = "live" /\ R.el[x].st = "live"
                                      /\ ShapeOK([elems |-> <<R.el[x].e>>], <<o.P[o.pn[1]]>>)
                                   THEN SlotsOf(o, <<o.P[o.pn[1]]>>) ELSE {} : x \in Elems}
-                IN IF (\A v \in Vecs : R.vec[v].st # "moved") /\ (\A x \in Elems : R.el[x].st # "moved")
+                IN IF (\A v \in Vecs : R.vec[v].st # "moved") /\ (\A x \in Elems : R.el[x].st \notin {"moved", "unspec"})
                    THEN Bad(lf.objs = want, "LIVE_OBJECTS")
                    ELSE Bad(want \subseteq lf.objs, "LIVE_OBJECTS"))
     IN /\ vec' = R.vec /\ el' = R.el
@@ -458,7 +460,7 @@ StepEnd(e) ==
 TraceInit ==
   /\ l = 1 /\ skip = TRUE
   /\ vec = [v \in Vecs |-> Absent] /\ el = [x \in Elems |-> Absent]
-  /\ act = [n |-> "Init", v |-> 0, a |-> <<>>]
+  /\ act = [n |-> "Init", v |-> 0, a |-> <<>>, fault |-> 0]
   /\ heap = {} /\ objs = {} /\ ob = [v \in Vecs |-> NoObs] /\ ex = [v \in Vecs |-> FALSE]
   /\ obe = [x \in Elems |-> NoObs]
 
